@@ -10,5 +10,6 @@ CONSTANTS
  FixDoubleDec = TRUE
  FixUnbounded = TRUE
  FixWouldBlock = TRUE
+ CoalesceWake = FALSE
 PROPERTIES Delivery
 CHECK_DEADLOCK FALSE
